@@ -8,8 +8,8 @@ use serde_json::{Value, json};
 
 pub const TYARGS: [&str; 13] =
     ["int32", "bool", "string", "unit", "(int32,bool)", "[int32;2]", "Vec[int32]", "Ref[int32]", "(int32)->int32", "S", "E2", "Opt[int32]", "Opt[Opt[bool]]"];
-pub const TEMPLATES: [&str; 26] =
-    ["under-vec", "under-ref", "under-array", "under-tuple", "under-opt", "under-box", "under-vec-ref", "under-ref-vec", "return-only-param", "zero-arg-generic", "swapped-params", "vec-generic", "ref-generic", "array-generic", "id", "pair", "apply", "opt-unwrap", "box-method", "trait-dispatch", "generic-calls-generic", "recursive-list", "two-bounds", "two-instances", "generic-fn-value", "nested-instantiation"];
+pub const TEMPLATES: [&str; 27] =
+    ["method-own-param", "under-vec", "under-ref", "under-array", "under-tuple", "under-opt", "under-box", "under-vec-ref", "under-ref-vec", "return-only-param", "zero-arg-generic", "swapped-params", "vec-generic", "ref-generic", "array-generic", "id", "pair", "apply", "opt-unwrap", "box-method", "trait-dispatch", "generic-calls-generic", "recursive-list", "two-bounds", "two-instances", "generic-fn-value", "nested-instantiation"];
 
 fn opt(t: Ty) -> Ty {
     Ty::Named("Opt".into(), vec![t])
@@ -241,6 +241,34 @@ pub fn build(template: &str, a: &str, b: &str) -> Option<Program> {
                 let av = cx.n.fresh("arg");
                 body.push(let_t(av, wrap(tyv.clone()), arg));
                 body.push(show("int32", callg("probe", vec![tyv.clone()], vec![v(av)])));
+            }
+        }
+        "method-own-param" => {
+            // a method of a generic impl with a type parameter of its own, instantiated at two types
+            // for one receiver type
+            cx.items.push(Item::Struct(StructDef { name: "Cell".into(), generics: vec!["T".into()], fields: vec![("v".into(), tp("T"))], derives: vec![] }));
+            let (sf, tag, show_p) = (cx.n.fresh("self"), cx.n.fresh("tag"), cx.n.fresh("show"));
+            cx.items.push(Item::Impl(ImplDef {
+                generics: vec!["T".into()],
+                trait_name: None,
+                for_ty: Ty::Named("Cell".into(), vec![tp("T")]),
+                methods: vec![FnDef {
+                    name: "label".into(),
+                    generics: vec!["L".into()],
+                    bounds: vec![],
+                    params: vec![(sf, Ty::Named("Cell".into(), vec![tp("T")])), (tag, tp("L")), (show_p, Ty::Fn(vec![tp("L")], Box::new(Ty::Str)))],
+                    ret: Some(Ty::Str),
+                    body: block(vec![st(println(s("in-label")))], Some(E::Call(Box::new(v(show_p)), vec![v(tag)]))),
+                }],
+            }));
+            let (xa, xb) = (cx.n.fresh("x"), cx.n.fresh("x"));
+            cx.items.push(fn_def("showA", vec![(xa, ta.clone())], Some(Ty::Str), render(a, v(xa))));
+            cx.items.push(fn_def("showB", vec![(xb, tb.clone())], Some(Ty::Str), render(b, v(xb))));
+            let c = cx.n.fresh("c");
+            let (vc, va, vb, va2) = (value(&mut cx, a, 1), value(&mut cx, a, 2), value(&mut cx, b, 3), value(&mut cx, a, 4));
+            body.push(let_t(c, Ty::Named("Cell".into(), vec![ta.clone()]), E::StructLit("Cell".into(), vec![("v".into(), vc)], vec![ta.clone()])));
+            for (val, shower) in [(va, "showA"), (vb, "showB"), (va2, "showA")] {
+                body.push(st(println(E::Inherent("Cell".into(), "label".into(), CallForm::Dot, vec![v(c), val, E::FnRef(shower.into(), vec![])], vec![ta.clone()]))));
             }
         }
         "return-only-param" => {
@@ -517,12 +545,12 @@ impl Family for Generics {
         &["C07", "C01", "C02", "C03", "C04"]
     }
     fn rule(&self) -> &'static str {
-        "26 generic templates (8 where the type parameter occurs in the signature only underneath Vec / Ref / array / tuple / Opt / a generic struct / Vec[Ref[.]] / Ref[Vec[.]], each instantiated at two types; a type parameter occurring only in the result type at two instantiations agreeing on the argument-bound parameter, zero-argument generic fixed by the expected type, the same generic at (A,B) and (B,A), Vec/Ref/array element generics, id, pair, apply, Opt unwrap, generic struct with inherent method, trait dispatch through a bound at two impl types, generic calling generic at (T,T), recursive List[T], two bounds, two instances in one program, generic fn as a value, nested instantiation) x 13 type arguments {int32,bool,string,unit,(int32,bool),[int32;2],Vec[int32],Ref[int32],(int32)->int32,S,E2,Opt[int32],Opt[Opt[bool]]} (all ordered pairs for two-parameter templates in thorough, a diagonal band in quick); oracle: output = type-passing reference semantics, emitted Go valid (no type-parameter residue can survive the Go checker); plus the polymorphic-recursion ladder for termination. non-trivial = instantiations at non-scalar types; distinct = distinct source text"
+        "27 generic templates (a method with a type parameter of its own inside a generic impl, at two instantiations for one receiver type; 8 where the type parameter occurs in the signature only underneath Vec / Ref / array / tuple / Opt / a generic struct / Vec[Ref[.]] / Ref[Vec[.]], each instantiated at two types; a type parameter occurring only in the result type at two instantiations agreeing on the argument-bound parameter, zero-argument generic fixed by the expected type, the same generic at (A,B) and (B,A), Vec/Ref/array element generics, id, pair, apply, Opt unwrap, generic struct with inherent method, trait dispatch through a bound at two impl types, generic calling generic at (T,T), recursive List[T], two bounds, two instances in one program, generic fn as a value, nested instantiation) x 13 type arguments {int32,bool,string,unit,(int32,bool),[int32;2],Vec[int32],Ref[int32],(int32)->int32,S,E2,Opt[int32],Opt[Opt[bool]]} (all ordered pairs for two-parameter templates in thorough, a diagonal band in quick); oracle: output = type-passing reference semantics, emitted Go valid (no type-parameter residue can survive the Go checker); plus the polymorphic-recursion ladder for termination. non-trivial = instantiations at non-scalar types; distinct = distinct source text"
     }
     fn cases(&self, tier: Tier) -> Box<dyn Iterator<Item = Value> + '_> {
         let mut v = Vec::new();
         for t in TEMPLATES {
-            let two = matches!(t, "pair" | "trait-dispatch" | "two-bounds" | "two-instances" | "return-only-param" | "swapped-params");
+            let two = matches!(t, "pair" | "trait-dispatch" | "two-bounds" | "two-instances" | "return-only-param" | "swapped-params" | "method-own-param");
             for (i, a) in TYARGS.iter().enumerate() {
                 if two {
                     for (j, b) in TYARGS.iter().enumerate() {
